@@ -249,6 +249,13 @@ def check_stream_history(hist, submits, run_count):
                   % (job, cancel_rpcs.get(job, 0)))
             if not was_cancelled and cancel_rpcs.get(job, 0) > 1:
                 v("cancel-rpc-count", "stop() produced %d cancel_quantum_job calls for %r" % (cancel_rpcs.get(job, 0), job))
+            o_last = outcome.get(rs[-1][1])
+            if (not was_cancelled and fkind == "cancelled" and cancel_rpcs.get(job, 0) == 0 and o_last is not None
+                    and tuple(o_last[1]) == ("void", "stop")):
+                # the job's last request was waiting for its answer on the server when stop() came: the caller is told
+                # "cancelled", so the remote job must have been cancelled too
+                v("stop-without-cancel-rpc", "stop() ended the future of %r as cancelled while its request was waiting for an "
+                                             "answer, but cancel_quantum_job was never called for it" % (job,))
             continue
         if cancel_rpcs.get(job, 0):
             v("spurious-cancel-rpc", "cancel_quantum_job(%r) called although the job was never cancelled" % (job,))
